@@ -25,5 +25,8 @@ Proof.
   Time exact (SR_rel _ _ H).
   Time sr_fields H.
   Time unfold erase. Time skel_cbn.
-  Time f_equal; congruence.
+  Time f_equal.
+  Show.
+  all: Time try assumption.
+  Time rewrite H0. reflexivity.
 Qed.
